@@ -1389,6 +1389,12 @@ public:
                             break;
                         case ' ':
                         case '\t':
+                            if (curr_char == field_delimiter_) // an empty first field, not leading white space
+                            {
+                                begin_record(local_visitor, ec);
+                                state_ = csv_parse_state::unquoted_string;
+                                break;
+                            }
                             if (!trim_leading_)
                             {
                                 buffer_.push_back(static_cast<CharT>(curr_char));
